@@ -16,7 +16,7 @@ LEVEL_TEXT = ("seeded search over operation histories on a simulated medium: eve
               "retry, after restart) and compared with the generating spec; sampling, not exhaustive")
 LEVEL_NOTE = ("trusts the SimFS text layer to behave like open(): volatile until close/flush, newline translation; "
               "input shapes are those of the seeded generator")
-RUNS = {"quick": 9000, "thorough": 300000}
+RUNS = {"quick": 9000, "thorough": 200000}
 OPTIMIZED_PASS = {"quick": 600, "thorough": 6000}   # extra runs under PYTHONOPTIMIZE=1 (assert statements removed)
 RULE = ("seeded histories of 1-7 operations (write via path/stream, overwrite, unacknowledged "
         "ENOSPC write or writer crash + retry, restart, read via path/stream with MAC checking on/off) over a "
